@@ -5,6 +5,7 @@ import (
 	"context"
 	"errors"
 	"fmt"
+	"math"
 	"sort"
 	"strings"
 	"testing"
@@ -223,6 +224,9 @@ func TestC02Status(t *testing.T) {
 			if rapid.IntRange(0, 2).Draw(t, fmt.Sprintf("thr?%d", i)) == 0 {
 				et := rapid.SampledFrom(ets).Draw(t, "thrET")
 				v := rapid.IntRange(-2, 6).Draw(t, "thrV")
+				if rapid.IntRange(0, 7).Draw(t, "thrHuge") == 0 {
+					v = rapid.SampledFrom([]int{math.MaxInt, math.MaxInt32, 1 << 44, math.MaxInt - 1, math.MinInt}).Draw(t, "thrHugeV")
+				}
 				sinks := rapid.Bool().Draw(t, "thrSinks")
 				op := model.Op{K: "thr", ET: et, V: v}
 				if sinks {
